@@ -196,11 +196,17 @@ def msg_rule(txt, shaped=False):
         s = i + m.start()
         e = _match_paren(txt, i + m.end() - 1)
         out.append(txt[i:s])
-        if shaped == "at":
+        if shaped in ("at", "at_bytes"):
             a = txt[i + m.end():e - 1]
             lead = _fmt_lead_expr(a)
             flag = "true" if _fmt_shape(a) else "false"
-            out.append(f"opaque_msg_at({flag}, {lead})" if lead else f"opaque_msg_shaped({flag})")
+            if shaped == "at_bytes" and lead:
+                # additionally keep the positional arguments (in order) as an array: the bytes a message quotes
+                parts = _split_top(a)[1:]
+                pos = [x for x in parts if not re.match(r"^[A-Za-z_][A-Za-z_0-9]*\s*=[^=]", x)]
+                out.append(f"opaque_msg_bytes({flag}, {lead}, [" + ", ".join(pos) + "])")
+            else:
+                out.append(f"opaque_msg_at({flag}, {lead})" if lead else f"opaque_msg_shaped({flag})")
         elif shaped:
             out.append("opaque_msg_shaped(%s)" % ("true" if _fmt_shape(txt[i + m.end():e - 1]) else "false"))
         else:
@@ -294,7 +300,7 @@ def extract_item(e, vac=False):
                 raise ExtractError(f"lost anchor for annotation: `{ins[k]}` in {e['key']}")
             item = item.replace(ins[k], (ins["text"] + "\n" + ins[k]) if k == "before" else (ins[k] + "\n" + ins["text"] + "\n"))
         if e.get("msg_rule"):
-            item = msg_rule(item, {"shaped": True, "at": "at"}.get(e.get("msg_rule"), False))
+            item = msg_rule(item, {"shaped": True, "at": "at", "at_bytes": "at_bytes"}.get(e.get("msg_rule"), False))
         if vac:
             item = "assert(false); // @VACUITY " + e["key"] + "\n" + item
         return item
@@ -329,7 +335,7 @@ def extract_item(e, vac=False):
             raise ExtractError(f"lost anchor for annotation: `{ins['after']}` in {e['key']}")
         item = item.replace(ins["after"], ins["after"] + "\n" + ins["text"] + "\n")
     if e.get("msg_rule"):
-        item = msg_rule(item, {"shaped": True, "at": "at"}.get(e.get("msg_rule"), False))
+        item = msg_rule(item, {"shaped": True, "at": "at", "at_bytes": "at_bytes"}.get(e.get("msg_rule"), False))
     if e.get("kind", "fn") == "fn":
         b = item.index("{")
         # find the body's brace: first '{' after the signature's closing paren / return type.
